@@ -614,4 +614,18 @@ def build_extra():
     c16.pid = "C20v"
     c16.replay_pid = "C16"
     c16.only_verify = ["SettingsController.get_setting_value"]
-    return [c06, setup_set(), c16]
+    # 'exactly ONE credit handler per coin switch / credit event' (EC1) rests on _disable_credit_handlers really removing
+    # every registration of the credit callbacks - two credit events may share one event name (C01's remove_handler RH1)
+    from . import C01
+    c01 = C01.build()
+    c01.pid = "C20e"
+    c01.replay_pid = "C01"
+    c01.only_verify = ["EventManager.remove_handler"]
+    # 'one coin, one credit': a coin switch handler fires once per real change - a repeated report of the current state is
+    # dropped in every mode of operation (C03's contract on process_switch_obj, restricted)
+    from . import C03
+    c03 = C03.build()
+    c03.pid = "C20s"
+    c03.replay_pid = "C03"
+    c03.only_verify = ["SwitchController.process_switch_obj"]
+    return [c06, setup_set(), c16, c01, c03]
